@@ -62,6 +62,34 @@ def model_bump(vp, old_text, flags, date, tdy):
     return exp, "ok"
 
 
+def model_bump_ast(ast, old_text, flags, date, tdy):
+    """model_bump for an already parsed pattern (pattern text is not needed by the model)"""
+    names = list(ref.parts_in(ast))
+    for f, pn in (("major", "MAJOR"), ("minor", "MINOR"), ("patch", "PATCH")):
+        if flags.get(f) and pn not in names:
+            return None, "flag-not-applicable"
+    if not ref.week_pairing_ok(names):
+        return None, "week-pairing"
+    raw = ref.parse(ast, old_text)
+    if raw is None:
+        return None, "old-unreadable"
+    try:
+        cur = ref.bump_state(ast, ref.state_from_raw(raw, tdy), date, **flags)
+    except OverflowError:
+        return None, "overflow"
+    if cur is None:
+        return None, "model-refuses"
+    exp = ref.render(ast, cur)
+    if exp == "" or exp == old_text or ref.parse(ast, exp) is None:
+        return None, "model-refuses"
+    if ref.n_full_parses(ast, exp) != 1:
+        return None, "ambiguous"
+    g = gate(old_text, exp)
+    if g != "accept":
+        return None, "gate-" + g
+    return exp, "ok"
+
+
 def plan_update(R, vp, old_text, old_state, tdy, tries=10, want_success=True):
     """Pick (flags, date) for which the model predicts success (or any, if want_success is False)."""
     ast = ref.parse_pattern(vp)
